@@ -11,9 +11,10 @@ T == Traces[i]
 PP == [L |-> T.p.l, L2 |-> T.p.l2, CS |-> T.p.cs, SS |-> T.p.ss, CMMS |-> T.p.cmms, SMMS |-> T.p.smms, Faults |-> 1000, Guard |-> TRUE]
 File(d) == d.pieces              \* request bodies: <<pos, a, b>>; response bodies: <<pos, a, b, version>>
 Has(q, x) == \E k \in 1..Len(q) : q[k] = x
-Conc == T.op \in {"conc", "obsbw"}      \* a record of N concurrent exchanges (see C04_NoMix) / of an observation (C04_ObsWhole)
+Conc == T.op \in {"conc", "obsbw", "mix"}      \* a record of N concurrent exchanges (see C04_NoMix) / of an observation (C04_ObsWhole)
 IsConc == T.op = "conc"
 IsObs == T.op = "obsbw"
+IsMix == T.op = "mix"
 Success == T.ret = "ok" /\ T.retcode \in {68, 69}         \* the call returned a 2.04 / 2.05 response
 
 \* "hands the receiving application exactly the bytes the sending application supplied" / "never a partial body
@@ -54,6 +55,13 @@ C04_NoMix == (J /\ IsConc) => /\ T.stray = 0
 O1x(l) == T.p.cs = 7 /\ l > 1024 /\ l < Buf(7, T.p.cmms) /\ l % 1024 # 0
 K04_ConcCompletes == (J /\ IsConc) => \A k \in 1..T.n : (XOK(T.x[k]) \/ O1x(T.x[k].uplen))
 
+\* two uploads with different tokens reach the server's layer block by block in a given interleaving (Mix.tla): every body
+\* handed to the application is the body of the transfer whose token it carries, whole, and each transfer is delivered once
+MixOf(w) == {k \in 1..Len(T.app) : T.app[k].who = w}
+C04_LayerNoMix == (J /\ IsMix) => /\ T.panics = 0
+                                  /\ \A k \in 1..Len(T.app) : T.app[k].who \in {0, 1} /\ T.app[k].len = 16 * T.nb /\ FileIs(T.app[k].own, 16 * T.nb)
+                                  /\ \A w \in {0, 1} : Cardinality(MixOf(w)) = 1
+                                  /\ T.left = 0
 \* observe + block-wise (ObsBlock.tla): every body handed to the observer is ONE representation, whole (never the first
 \* block of one and the rest of the next); notifications reach it in Observe order; registration and cancellation end;
 \* after the cancellation and the transfer timeout nothing is held on either side
